@@ -55,8 +55,11 @@ pub trait Table: Send + Sync {
     fn ctors(&self, level: u8) -> Vec<Ctor> {
         if level == 0 {
             vec![Ctor::new(2, 0, 2)]
-        } else {
+        } else if self.ctor_fields().is_empty() {
             vec![Ctor::new(2, 0, 2), Ctor::new(0, 0, 0), Ctor::new(1, 0, 1)]
+        } else {
+            // constructor arguments too: header variant x argument filling
+            vec![Ctor::new(2, 0, 2), Ctor::new(0, 0, 0), Ctor::new(1, 0, 1), Ctor::new(2, 0, 3), Ctor::new(0, 0, 1), Ctor::new(1, 0, 0)]
         }
     }
     /// operations enabled after `hist`, simplest first. level 0 = one op per kind (lanes),
@@ -87,6 +90,10 @@ pub trait Table: Send + Sync {
     }
     fn variable_body(&self) -> bool {
         true
+    }
+    /// largest image the table can describe (VIOT: node offsets are 16-bit, the crate refuses to grow past 64 KiB)
+    fn max_image(&self) -> Option<usize> {
+        None
     }
     /// names of the open known findings that change this table's image ("switches" of DESIGN.md 6)
     fn quirks(&self) -> &'static [&'static str] {
